@@ -172,6 +172,11 @@ class BeltStore(Store):
       
 
         """
+        # One item enters the belt at a time: a granted space reservation that is still unused
+        # stands for the item that is about to enter, so no further reservation is granted until it
+        # has been used or cancelled (otherwise two items could enter less than one item length apart).
+        if self.reservations_put:
+            return
         # Check if there's enough space to reserve
         if self.items:
             if len(self.reservations_put) + len(self.items) +len(self.ready_items) < self.capacity:
